@@ -3062,12 +3062,10 @@ class TypeBlocks(ContainerOperand):
         # get a unified boolean array; as isna will always return a Boolean, we can simply take the first block out of consolidation
         unified = next(self.consolidate_blocks(isna_array(b) for b in self._blocks))
 
-        # flip axis to condition funcion
-        if unified.ndim == 2:
-            condition_axis = 0 if axis else 1
-            to_drop = condition(unified, axis=condition_axis)
-        else: #ndim == 1
-            to_drop = unified
+        # a single 1D block is one column: process it as 2D so that the condition is applied along the requested axis
+        unified = column_2d_filter(unified)
+        condition_axis = 0 if axis else 1
+        to_drop = condition(unified, axis=condition_axis)
         to_keep = np.logical_not(to_drop)
 
         if axis == 1:
